@@ -79,7 +79,7 @@ func genScript(r *vh.Rng) []mockStep {
 	var sc []mockStep
 	sharedPtr := &ptrErr{"shared pointer error"}
 	for i := 0; i < n; i++ {
-		switch r.Pick(10) {
+		switch r.Pick(11) {
 		case 0, 1, 2, 3:
 			sc = append(sc, mockStep{Kind: "ok", raw: &mockRaw{i + 1}, bytes: []byte(fmt.Sprintf(`{"i":%d}`, i))})
 		case 4:
@@ -94,6 +94,13 @@ func genScript(r *vh.Rng) []mockStep {
 		case 8:
 			// ErrTransformFailed that the ingester itself declares non-continuable: still not terminal
 			sc = append(sc, mockStep{Kind: "failed-noncont", Cont: false, err: errs.ErrTransformFailed("failed, ingester says stop")})
+		case 9:
+			if r.Chance(0.5) {
+				// a fatal error that wraps the per-record failure which caused it: still terminal
+				sc = append(sc, mockStep{Kind: "fatal-wraps-failed", Cont: false, err: fmt.Errorf("giving up, too many bad records: %w", errs.ErrTransformFailed("bad record"))})
+			} else {
+				sc = append(sc, mockStep{Kind: "fatal-wraps-eof", Cont: false, err: fmt.Errorf("unexpected end: %w", io.EOF)})
+			}
 		default:
 			sc = append(sc, mockStep{Kind: "eof", Cont: r.Chance(0.1), err: io.EOF})
 		}
@@ -192,7 +199,7 @@ func drive(r *vh.Rng, t omniparser.Transform, log *vh.Log, ei *vh.ErrIntern, bui
 				if log.IngCall != termCalls {
 					fail("ingester consulted again after terminal error %q", termErr)
 				}
-			} else if err != nil && !errs.IsErrTransformFailed(err) {
+			} else if err != nil && !vh.IsFailed(err) {
 				termErr, termCalls = err, log.IngCall
 				res.Terminal = true
 			}
@@ -296,7 +303,7 @@ func main() {
 	sum := vh.NewSummary("C01", o,
 		"histories of Read/RawRecord calls on real Transforms (seven built-in formats over generated and damaged inputs, plus a scripted caller-supplied handler); non-trivial = the history reaches a terminal result and issues >=1 further call after it; distinct by (handler kind, input/script, op list)")
 	cw := vh.NewCaseWriter(o, "C01", "Base.ErrClass Model.Latch", "c01case", "check_case")
-	fixtures := vh.Fixtures()
+	fixtures := append(vh.Fixtures(), vh.ExtraFixtures()...)
 	total := o.Count(1500, 40000)
 
 	schemas := make([]*vh.LoggedSchema, len(fixtures))
@@ -366,7 +373,7 @@ func main() {
 		res := drive(r, t, log, ei, true, len(in)+5, nil)
 		desc := map[string]interface{}{"handler": "builtin", "format": fixtures[fi].Format, "schema": fixtures[fi].Schema,
 			"input_hex": fmt.Sprintf("%x", in), "ops": res.Ops}
-		finish(sum, cw, ei, fixtures[fi].Format, desc, log, res, fi)
+		finish(sum, cw, ei, fixtures[fi].Format, desc, log, res, log.FmtIdx)
 	}
 	cw.Flush()
 	sum.CaseFiles = cw.Files
@@ -545,6 +552,7 @@ func replay(o *vh.Opts, sum *vh.Summary, cw *vh.CaseWriter, fixtures []vh.Fixtur
 		Case struct {
 			Handler  string     `json:"handler"`
 			Format   string     `json:"format"`
+			Schema   string     `json:"schema"`
 			InputHex string     `json:"input_hex"`
 			Ops      []string   `json:"ops"`
 			Script   []mockStep `json:"script"`
@@ -560,7 +568,7 @@ func replay(o *vh.Opts, sum *vh.Summary, cw *vh.CaseWriter, fixtures []vh.Fixtur
 	c := rf.Case
 	if c.Handler == "builtin" {
 		for fi, f := range fixtures {
-			if f.Format != c.Format || schemas[fi] == nil {
+			if f.Format != c.Format || (c.Schema != "" && f.Schema != c.Schema) || schemas[fi] == nil {
 				continue
 			}
 			in, _ := hex.DecodeString(c.InputHex)
@@ -571,7 +579,7 @@ func replay(o *vh.Opts, sum *vh.Summary, cw *vh.CaseWriter, fixtures []vh.Fixtur
 			}
 			res := drive(r, t, log, ei, true, 0, c.Ops)
 			desc := map[string]interface{}{"handler": "builtin", "format": f.Format, "schema": f.Schema, "input_hex": c.InputHex, "ops": res.Ops}
-			finish(sum, cw, ei, f.Format, desc, log, res, fi)
+			finish(sum, cw, ei, f.Format, desc, log, res, log.FmtIdx)
 			printRun(res)
 		}
 		return
@@ -592,6 +600,10 @@ func replay(o *vh.Opts, sum *vh.Summary, cw *vh.CaseWriter, fixtures []vh.Fixtur
 			st.err = &ptrErr{"pointer error"}
 		case "failed-noncont":
 			st.err = errs.ErrTransformFailed("failed, ingester says stop")
+		case "fatal-wraps-failed":
+			st.err = fmt.Errorf("giving up, too many bad records: %w", errs.ErrTransformFailed("bad record"))
+		case "fatal-wraps-eof":
+			st.err = fmt.Errorf("unexpected end: %w", io.EOF)
 		default:
 			st.err = io.EOF
 		}
